@@ -90,6 +90,8 @@ def to_obligations(spec, res, out, info):
         if r["failed_checks"] and "file" in r["failed_checks"][0]:
             loc = "%s:%d" % (r["failed_checks"][0]["file"], r["failed_checks"][0]["line"])
         extra = {"cbmc_checks": r["checks"], "harness": s["harness"]}
+        if s.get("twin"):
+            extra["twin"] = s["twin"]
         if r["stubs"]:
             extra["verified_stubs"] = r["stubs"]
         if r["status"] == "SUCCESSFUL":
@@ -130,12 +132,21 @@ def playback(prop, ob, crate_dir, target_dir, lib_rel="src/lib.rs", timeout=900,
     pb = {"failing_input": None, "native_replay": None}
     if not harness:
         return write_replay(prop, ob, pb)
-    cmd = ["cargo", "kani", "--target-dir", target_dir] + KANI_FLAGS + \
-          ["-Z", "concrete-playback", "--concrete-playback=print", "--exact", "--harness", harness]
-    rc, out, wall, to = run(cmd, cwd=crate_dir, timeout=timeout, env=env)
-    m = re.search(r"```\n(.*?)```", out, re.S)
+    # 1st choice: the explicit twin harness (same obligation as assume/assert:
+    # fast, and its assert! is evaluated by a native run); 2nd: the harness itself
+    cands = [h for h in (ob.extra.get("twin"), harness) if h]
+    m = None
+    for h in cands:
+        cmd = ["cargo", "kani", "--target-dir", target_dir] + KANI_FLAGS + \
+              ["-Z", "concrete-playback", "--concrete-playback=print", "--exact", "--harness", h]
+        rc, out, wall, to = run(cmd, cwd=crate_dir, timeout=timeout, env=env)
+        m = re.search(r"```\n(.*?)```", out, re.S)
+        if m:
+            harness = h
+            pb["counterexample_from"] = h + (" (explicit twin of the contract harness)" if h != ob.extra.get("harness") else "")
+            break
     if not m:
-        pb["playback_note"] = "Kani produced no concrete playback (timeout=%s)" % to
+        pb["playback_note"] = "Kani produced no concrete playback"
         return write_replay(prop, ob, pb)
     test_src = m.group(1)
     vals = re.findall(r"^\s*// (.+)\n\s*vec!\[([0-9, ]*)\]", test_src, re.M)
